@@ -5,9 +5,6 @@
 set -u
 SD="$1"; PID="$2"
 export GOFLAGS=-mod=mod GOPROXY=off GOSUMDB=off GOTOOLCHAIN=local
-if ! git -C /repo diff --quiet || [ -n "$(git -C /repo status --porcelain)" ]; then
-  echo "try_seed: /repo has uncommitted changes; commit them first (this script ends with git checkout -- .)"; exit 3
-fi
 WT=/tmp/wt-confirm-$$
 git -C /repo worktree add -q --detach $WT HEAD || exit 2
 trap 'git -C /repo worktree remove --force $WT >/dev/null 2>&1' EXIT
@@ -29,10 +26,9 @@ pkgs=$(git diff --name-only | xargs -n1 dirname | sort -u | sed 's#^#./#' | past
 suite=$(go test -vet=off -count=1 -timeout 600s $pkgs 2>&1 | tail -3)
 echo "$suite" | grep -q "FAIL" && suite_ok=no || suite_ok=yes
 cd /verif
-git -C /repo apply "$SD/patch.diff"
-out=$(./check $PID 2>&1)
+# the check runs on the scratch worktree (HEAD of /repo plus the seed), so /repo itself may be edited meanwhile
+out=$(VERIF_REPO=$WT bin/goverif prop -id "$PID" -tier quick -repo "$WT" -verif /verif -evidence "$WT/.evidence" 2>&1)
 rc=$?
-git -C /repo checkout -- .
 viol=$(echo "$out" | grep -c '^VIOLATION')
 echo "SEED $(basename $SD) prop=$PID builds=$builds suite_passes=$suite_ok demo_fails_with=$fails_with demo_passes_without=$pass_without check_rc=$rc violations=$viol"
 echo "$out" | grep '^VIOLATION' | cut -c1-260
